@@ -143,7 +143,13 @@ def r2_pipeline(ctx):
                   "the assignment's unit is attached, then converted into the definition's unit under the environment's custom units",
                   detail=sorted({str(n) for n in seqs}), expected=want)
     ctx.form(bool(copies) and all(copies), NB, "BaseNode.modify_value", "works on a copy of the definition's typed value (type, width, sign kept)")
-    ctx.form(bool(final) and all(final), NB, "BaseNode.modify_value", "the converted value is stored through the node's own setter; none is stored as none")
+    recast = sorted({norm(e.resolved) for q in ps for e in q.events if e.kind == "expr" and e.resolved is not None and norm(e.resolved).startswith("self.set_value(self.cast_value(")
+                     and COPY in norm(e.resolved)})
+    if recast:
+        ctx.violated(NB, "BaseNode.modify_value", "the converted value is stored as it is (no second cast after the unit conversion)", detail=recast,
+                     expected=f"self.set_value({COPY}.value): the caster of an integer node truncates, 290 mm -> 28.999999999999996 cm -> 28")
+    else:
+        ctx.form(bool(final) and all(final), NB, "BaseNode.modify_value", "the converted value is stored through the node's own setter; none is stored as none")
     what = "a number modified to none keeps the unit of its definition"
     ctx.form(bool(none_units), NB, "BaseNode.modify_value", "the unit stored with a none value is found")
     if none_units:
